@@ -876,3 +876,20 @@ Proof. vm_compute. repeat split; reflexivity. Qed.
 
 Example ex_inv_start : Inv ex_empty.
 Proof. exact I. Qed.
+
+(* the oracle is not vacuous: it rejects a listing whose manifest names a missing table file, and a torn manifest *)
+Definition ex_text : bytes := match write_manifest ex_m with Some t => t | None => [] end.
+Definition ex_steps : list tstep := [TS (ULock false zero_hash ex_m); TS (UTemp 1 20); TS UFinish].
+Example oracle_rejects_missing_table :
+  oracle (ITrace ex_steps) (OTrace [(0, 0, [], None); (0, 0, [], None); (0, 0, ex_lock, Some (Some (ex_text, 20), []))]) = false.
+Proof. vm_compute. reflexivity. Qed.
+Example oracle_rejects_torn_manifest :
+  oracle (ITrace ex_steps)
+         (OTrace [(0, 0, [], None); (0, 0, [], None);
+                  (0, 0, ex_lock, Some (Some (firstn 60 ex_text, 20), [(CTable ex_h1 false, (10, 5))]))]) = false.
+Proof. vm_compute. reflexivity. Qed.
+Example oracle_accepts_good_listing :
+  oracle (ITrace ex_steps)
+         (OTrace [(0, 0, [], None); (0, 0, [], None);
+                  (0, 0, ex_lock, Some (Some (ex_text, 20), [(CTable ex_h1 true, (10, 5))]))]) = true.
+Proof. vm_compute. reflexivity. Qed.
